@@ -1,11 +1,23 @@
 from __future__ import annotations
 
+import re
 from decimal import Decimal
 from typing import Protocol, Any
 
 from . import isoduration
 
 STRICT_VALUE_CHECK = True
+
+# lexical spaces of xsd:integer and xsd:decimal; int() and Decimal() accept more (e.g. '1_0', '1e3', 'NaN', non-ASCII digits)
+_XSD_INTEGER = re.compile(r'[+-]?[0-9]+')
+_XSD_DECIMAL = re.compile(r'[+-]?([0-9]+(\.[0-9]*)?|\.[0-9]+)')
+
+
+def _check_lexical(pattern: re.Pattern, xml_value: str, type_name: str) -> str:
+    xml_value = xml_value.strip()
+    if pattern.fullmatch(xml_value) is None:
+        raise ValueError(f'{xml_value!r} is not a valid {type_name}')
+    return xml_value
 
 
 class DataConverterProtocol(Protocol):
@@ -128,7 +140,10 @@ class TimestampConverter(NullConverter):
     def to_py(cls, xml_value: str) -> float | None:
         if xml_value is None:
             return None
-        return int(xml_value) / 1000
+        value = int(_check_lexical(_XSD_INTEGER, xml_value, 'timestamp'))
+        if value < 0:
+            raise ValueError(f'Timestamp can only have positive values, got {xml_value}')
+        return value / 1000
 
     @staticmethod
     def to_xml(py_value) -> str:
@@ -150,6 +165,7 @@ class DecimalConverter(NullConverter):
     def to_py(cls, xml_value: str) -> Decimal | int | float:
         if xml_value is None:
             return None
+        xml_value = _check_lexical(_XSD_DECIMAL, xml_value, 'decimal')
         if cls.USE_DECIMAL_TYPE:
             return Decimal(xml_value)
         if '.' in xml_value:
@@ -214,7 +230,7 @@ class IntegerConverter(NullConverter):
     def to_py(xml_value: str) -> int:
         if xml_value is None:
             return None
-        return int(xml_value)
+        return int(_check_lexical(_XSD_INTEGER, xml_value, 'integer'))
 
     @staticmethod
     def to_xml(py_value: int) -> str:
